@@ -21,7 +21,7 @@ META = {
         "technique": "property-based testing (rapid), stateful model-based oracle",
     },
     "C07": {
-        "text": "Round-trip oracle through an independent decoder: the bytes captured at the DataHandler seam are decoded with Milvus' own unmarshal dispatcher (as the receiving proxy does) and compared message by message with deep copies of what was handed to the real ChannelWriter, for generated packs of all supported types, with/without replicate id and name mapping, concurrent channels, and failing / malformed downstream answers.",
+        "text": "Round-trip oracle through an independent decoder: the bytes captured at the DataHandler seam are decoded with Milvus' own unmarshal dispatcher (as the receiving proxy does) and compared message by message with deep copies of what was handed to the real ChannelWriter, for generated packs of all supported types, with/without replicate id and name mapping, concurrent channels, and failing / malformed downstream answers. TestC07_InFlightCancel: the context ends while the downstream call is in flight.",
         "design_ref": "DESIGN.md section 4 C07",
         "note": "Trusts the Milvus decoder and proto.Equal. The real gRPC handler is replaced by a recording fake at api.DataHandler.",
         "technique": "property-based testing (rapid), round-trip through independent decoder",
@@ -33,25 +33,25 @@ META = {
         "technique": "exhaustive decision-table differential + stateful property-based testing (rapid) with reference model",
     },
     "C09": {
-        "text": "Differential against a reference mapping function over the full product of operation kinds x source database x mapping shape, comparing routing database, request name fields, probe names and names inside serialized DML. Found and fixed four defects (AlterIndex routed to default; ReleasePartitions routed by source db; exact vs whole-db precedence depending on map order; partition events re-probing with mapped db).",
+        "text": "Differential against a reference mapping function over the full product of operation kinds x source database x mapping shape, comparing routing database, request name fields, probe names and names inside serialized DML. Found and fixed four defects (AlterIndex routed to default; ReleasePartitions routed by source db; exact vs whole-db precedence depending on map order; partition events re-probing with mapped db). TestC09_MappingUpdate: operations before and after UpdateNameMappings on a shared writer.",
         "design_ref": "DESIGN.md section 4 C09",
         "note": "Routing is observed as ReplicateParam.Database at the api.DataHandler seam (what MilvusDataHandler uses to pick the client).",
         "technique": "property-based testing (rapid), differential against reference mapping",
     },
     "C20": {
-        "text": "Every generated op message / API event is pushed through the real writer and the single resulting downstream request is deep-compared with a copy of the source (identity fields, list filtering, schema, shard number, consistency, properties, replication stamp); malformed packs must be rejected with zero downstream calls. Load/release partition lists may name a partition that is neither dropped nor present downstream yet: not ready, no request, never a truncated list.",
+        "text": "Every generated op message / API event is pushed through the real writer and the single resulting downstream request is deep-compared with a copy of the source (identity fields, list filtering, schema, shard number, consistency, properties, replication stamp); malformed packs must be rejected with zero downstream calls. Load/release partition lists may name a partition that is neither dropped nor present downstream yet: not ready, no request, never a truncated list. TestC20_RealHandler drives the real MilvusDataHandler + SDK against the fake gRPC downstream for 13 operation kinds (request identity fields and routing).",
         "design_ref": "DESIGN.md section 4 C20",
         "note": "Names are excluded here (C09). Kafka downstream not exercised.",
         "technique": "property-based testing (rapid), field-by-field differential with the source message",
     },
     "C01": {
-        "text": "Generated catalogs, pack scripts and registration/arrival interleavings are run through the real replicateChannelManager between a fake dispatcher and its public output channels; after goroutine-level quiescence a two-sided oracle compares everything fed with everything emitted (tags make every row attributable). Found the nil-position defect (fixed) and the forward/tick overtake (known finding). TestC01_Repeat adds repeated notifications of a collection (a second start lined up with the first inside the downstream lookup, or again between two packs): both succeed, no source shard is subscribed twice, same oracle.",
+        "text": "Generated catalogs, pack scripts and registration/arrival interleavings are run through the real replicateChannelManager between a fake dispatcher and its public output channels; after goroutine-level quiescence a two-sided oracle compares everything fed with everything emitted (tags make every row attributable). Found the nil-position defect (fixed) and the forward/tick overtake (known finding). TestC01_Repeat adds repeated notifications of a collection (a second start lined up with the first inside the downstream lookup, or again between two packs): both succeed, no source shard is subscribed twice, same oracle. TestC01_Drop: a drop-partition message in the stream of a multi-shard collection read with skew (partition messages behind another shard's drop must still be handed over); first packs whose messages all carry the pack end time.",
         "design_ref": "DESIGN.md section 4 C01",
         "note": "Schedules: only registration-vs-arrival order and the natural concurrency of handler goroutines are explored; Go scheduler interleavings are sampled. Fake dispatcher delivers packs shaped like the real one (nil / pchannel positions, BeginTs=0).",
         "technique": "property-based testing (rapid), stateful generation, two-sided multiset/sequence oracle",
     },
     "C02": {
-        "text": "Same runs as C01 with an addressing/routing oracle on every emitted message: ids, shard bijection, output channel, position channel names and message ids, for aligned and skewed placements. TestC02_SameName repeats it over catalogs whose collections all carry one name (one per database) with frequent late partition ids.",
+        "text": "Same runs as C01 with an addressing/routing oracle on every emitted message: ids, shard bijection, output channel, position channel names and message ids, for aligned and skewed placements. TestC02_SameName repeats it over catalogs whose collections all carry one name (one per database) with frequent late partition ids. Channel numbers in prefix relation (dml_1 / dml_10) and reversed downstream shard lists are generated.",
         "design_ref": "DESIGN.md section 4 C02",
         "note": "Downstream described by a fake api.TargetAPI; the pairing the code chooses is only required to be a bijection.",
         "technique": "property-based testing (rapid), validity-predicate oracle over emitted messages",
@@ -63,7 +63,7 @@ META = {
         "technique": "property-based testing (rapid) with harness-controlled schedule (yield hooks), invariant oracle over the output sequence",
     },
     "C04": {
-        "text": "Generated drop scenarios (live and dropped-while-down, collections and partitions, 1..3 shards, stop points, registration timing) against the real manager; an event-count/ordering oracle on the public event channel with a logical clock. Found the barrier busy loop, two synthetic-drop defects (fixed) and the undersized partition barrier (known finding).",
+        "text": "Generated drop scenarios (live and dropped-while-down, collections and partitions, 1..3 shards, stop points, registration timing) against the real manager; an event-count/ordering oracle on the public event channel with a logical clock. Found the barrier busy loop, two synthetic-drop defects (fixed) and the undersized partition barrier (known finding). TestC04_PendingEvent (stop while the drop request waits for room in the event channel) and TestC04_Lifecycle (repeated notification, stop and new start on the same manager, then the drop).",
         "design_ref": "DESIGN.md section 4 C04",
         "note": "Restart is modelled by a fresh manager with the catalog state and checkpoints the collection reader would pass; the persisted drop-message table is covered by C17.",
         "technique": "property-based testing (rapid), scenario generator with logical-clock oracle",
@@ -75,19 +75,19 @@ META = {
         "technique": "property-based testing (rapid), stateful model-based oracle with full-state comparison, fault injection",
     },
     "C13": {
-        "text": "The interleaving of catalog writes with the reader's subscribe/watch/list/start-watch steps is owned by the harness (decorating MetaOp) on top of a real etcd, real EtcdOp, real CollectionReader and real channel manager. Found the duplicate-start error, the duplicate create-partition event and the partition-before-collection hang (all fixed).",
+        "text": "The interleaving of catalog writes with the reader's subscribe/watch/list/start-watch steps is owned by the harness (decorating MetaOp) on top of a real etcd, real EtcdOp, real CollectionReader and real channel manager. Found the duplicate-start error, the duplicate create-partition event and the partition-before-collection hang (all fixed). The creation of the second database is part of the history; named selections may name it; a collection must be started under its own database name.",
         "design_ref": "DESIGN.md section 4 C13",
         "note": "Only write-vs-reader-step order is controlled; delivery order between the collection and partition watchers and the 16-worker event pool are sampled.",
         "technique": "property-based testing (rapid) with harness-controlled interleaving points, end-state oracle",
     },
     "C15": {
-        "text": "Differential test of GetAllDroppedObj() on generated catalogs written into a real etcd against a reference function derived from the statement, compared as whole maps (no missing, no extra, right horizon). Found the stale database name for partitions without a target (fixed).",
+        "text": "Differential test of GetAllDroppedObj() on generated catalogs written into a real etcd against a reference function derived from the statement, compared as whole maps (no missing, no extra, right horizon). Found the stale database name for partitions without a target (fixed). Ids may cross a power of ten within a catalog (listing order differs from creation order).",
         "design_ref": "DESIGN.md section 4 C15",
         "note": "Real etcd + real EtcdOp; target is a fake api.TargetAPI.",
         "technique": "property-based testing (rapid), differential against reference function",
     },
     "C10": {
-        "text": "Stateful property-based exploration of create / failing create / delete / restart histories through the real HTTP handler and MetaCDC with a real etcd meta store: exclusivity per target on both selection paths, selection bounds at acceptance and constancy afterwards, side-effect freedom of rejects, and equality of the duplicate bookkeeping with a reference computed from the persisted tasks after every step. Found five defects (user-role flag out of step, partially overlapping wildcards accepted, shared exclusion removed with one task, bookkeeping reverted twice after a failed start), all fixed. Concurrent create requests for one target are part of the histories (invariants on whatever was accepted).",
+        "text": "Stateful property-based exploration of create / failing create / delete / restart histories through the real HTTP handler and MetaCDC with a real etcd meta store: exclusivity per target on both selection paths, selection bounds at acceptance and constancy afterwards, side-effect freedom of rejects, and equality of the duplicate bookkeeping with a reference computed from the persisted tasks after every step. Found five defects (user-role flag out of step, partially overlapping wildcards accepted, shared exclusion removed with one task, bookkeeping reverted twice after a failed start), all fixed. Concurrent create requests for one target are part of the histories (invariants on whatever was accepted). Tasks without auto start are part of the histories.",
         "design_ref": "DESIGN.md section 4 C10",
         "note": "Selection is evaluated through the exported selection functions over a 4x3 name universe (the functions the readers and the DDL path call), not by observing replicated traffic; traffic-level exclusivity is exercised in the C05/C06 simulator runs. Store failures are single transient faults.",
         "technique": "property-based testing (rapid), stateful model-based oracle + reference bookkeeping, fault injection",
@@ -99,7 +99,7 @@ META = {
         "technique": "property-based testing (rapid) + native coverage-guided fuzzing (go test -fuzz), invariant + metamorphic (state unchanged) oracle",
     },
     "C18": {
-        "text": "Canary-based information-flow testing: every secret of a generated create request is a unique marker, the service runs at debug level with its complete log output captured at file-descriptor level, and every response and log increment of generated API / failure / restart histories is searched for the markers. Found the four leaking log sites (failed create prints the request, failed connection check prints the connect parameters, failed start during reload prints the task record, request log does not mask Kafka SASL credentials), fixed in one commit. Requests may also carry credentials in the connect param of the other downstream kind.",
+        "text": "Canary-based information-flow testing: every secret of a generated create request is a unique marker, the service runs at debug level with its complete log output captured at file-descriptor level, and every response and log increment of generated API / failure / restart histories is searched for the markers. Found the four leaking log sites (failed create prints the request, failed connection check prints the connect parameters, failed start during reload prints the task record, request log does not mask Kafka SASL credentials), fixed in one commit. Requests may also carry credentials in the connect param of the other downstream kind. Overlapping pause / resume requests are generated.",
         "design_ref": "DESIGN.md section 4 C18",
         "note": "In-process (not a child process): the capture re-points fd 1/2, so output of linked C libraries (librdkafka) is included. Kafka targets are limited to one per case because their producers are never closed by the code under test.",
         "technique": "property-based testing (rapid), stateful generation with fault injection, invariant oracle (canary never observable)",
@@ -111,13 +111,13 @@ META = {
         "technique": "property-based testing (rapid), stateful model-based oracle (explicit state machine), fault injection, resource-level invariants",
     },
     "C06": {
-        "text": "Fault-injection scenarios over the full in-process service with two tasks: generated fault class, position, persistence, batching and task placement; an end-state oracle on task states, reasons, downstream traffic, checkpoints and on what arrives after resume. Found four defects, all fixed: error events without task id pause another task in the store while the failing one runs on and skips the failing messages; a failure of one task ends the shared loops / batch of its target; the resume time filter uses the shifted target time and drops unacknowledged source messages. A fifth class rejects a DDL: a collection selected by the task is created upstream while it runs and the downstream rejects its CreateCollection; a panic of the service is read from the fd-level capture file. This class found the stale failure mark of a stream (fix 53f00a7).",
+        "text": "Fault-injection scenarios over the full in-process service with two tasks: generated fault class, position, persistence, batching and task placement; an end-state oracle on task states, reasons, downstream traffic, checkpoints and on what arrives after resume. Found four defects, all fixed: error events without task id pause another task in the store while the failing one runs on and skips the failing messages; a failure of one task ends the shared loops / batch of its target; the resume time filter uses the shifted target time and drops unacknowledged source messages. A fifth class rejects a DDL: a collection selected by the task is created upstream while it runs and the downstream rejects its CreateCollection; a panic of the service is read from the fd-level capture file. This class found the stale failure mark of a stream (fix 53f00a7). Further classes: an unknown partition named by a delete, rows for the collection whose creation fails, the order 'DDL pauses first, start fails afterwards' (owned by holding the reader's lookups), a lookup refused while the task is resumed (start_rejected).",
         "design_ref": "DESIGN.md section 4 C06",
         "note": "In-process; a panic of the service kills the test binary and is reported by the driver as a violation (no recover in harness goroutines).",
         "technique": "property-based testing (rapid), fault injection at generated positions, end-state oracle judged at quiescence",
     },
     "C05": {
-        "text": "Generated scripts of traffic, write/checkpoint faults, pauses and crash points (before the write, between acknowledgement and checkpoint, after the checkpoint) against the full in-process service, with a monitor evaluated at every checkpoint write (never ahead of what the downstream accepted) and an end-state oracle (every row arrives at least once after resume / restart). Found the resume time filter defect (fixed, see C06) and the dead shared loops (fixed, see C11). The never-ahead monitor also found the known finding F-C05-resume-without-checkpoint (a channel without persisted checkpoint is reopened at the latest position). TestC05_Drop covers the frozen clause (record of a collection whose drop was replayed stays byte-identical under traffic, pause/resume and restart) and found the op-position written into a frozen record (fix b2b15e2).",
+        "text": "Generated scripts of traffic, write/checkpoint faults, pauses and crash points (before the write, between acknowledgement and checkpoint, after the checkpoint) against the full in-process service, with a monitor evaluated at every checkpoint write (never ahead of what the downstream accepted) and an end-state oracle (every row arrives at least once after resume / restart). Found the resume time filter defect (fixed, see C06) and the dead shared loops (fixed, see C11). The never-ahead monitor also found the known finding F-C05-resume-without-checkpoint (a channel without persisted checkpoint is reopened at the latest position). TestC05_Drop covers the frozen clause (record of a collection whose drop was replayed stays byte-identical under traffic, pause/resume and restart) and found the op-position written into a frozen record (fix b2b15e2). TestC05_Drop covers the frozen clause; a write fault followed by a rejected state update is generated synchronously.",
         "design_ref": "DESIGN.md section 4 C05",
         "note": "Crash is simulated inside the test process by fencing the incarnation's store and source streams at the chosen point; a child-process SUT was designed but not built. End-state verdicts are only taken at quiescence.",
         "technique": "property-based testing (rapid), generated fault/crash scripts, history invariant (monitor at every checkpoint write) + end-state oracle",
